@@ -158,8 +158,11 @@ class Gen:
         if self.r.random() < 0.05:
             q.append("limit=1")   # duplicate key
         target = "/" + ("?" + "&".join(q) if q else self.r.choice(["", "?"]))
-        self.add({"op": "http", "method": "GET", "target": target, "sse": self.r.random() < 0.3,
-                  "read_ms": 350 if follow else 1500})
+        op = {"op": "http", "method": "GET", "target": target, "sse": self.r.random() < 0.3, "read_ms": 350 if follow else 1500}
+        if self.r.random() < 0.2:
+            op["accept_raw"] = self.r.choice([b"text/caf\xe9", b"*/*", b"text/event-stream; q=1", b"TEXT/EVENT-STREAM", b"\xff\xfe",
+                                              b"application/x-ndjson", b"text/event-stream"])
+        self.add(op)
 
     def op_head(self):
         t = self.r.choice(self.topics + ["nope", "xs.context", ""])
@@ -262,6 +265,9 @@ class Gen:
     def op_misc(self):
         self.add(self.r.choice([
             {"op": "http", "method": "GET", "target": "/version"},
+            {"op": "http", "method": "GET", "target": "/version", "accept_raw": b"text/caf\xe9"},
+            {"op": "http", "method": "GET", "target": "/head/t", "accept_raw": b"\xe9"},
+            {"op": "http", "method": "POST", "target": "/t", "body": b"", "meta": None, "accept_raw": b"caf\xe9"},
             {"op": "http", "method": "GET", "target": "/version?x=1"},
             {"op": "http", "method": "PUT", "target": "/a", "body": b"x"},
             {"op": "http", "method": "PATCH", "target": "/"},
@@ -374,7 +380,12 @@ def run_case(case):
                 headers = []
                 if meta is not None:
                     headers.append(["xs-meta", meta.hex()])
-                if sse:
+                acc = op.pop("accept_raw", None)
+                if acc is not None:
+                    # any other Accept value - other media types, parameters, case, non-ASCII bytes - means NDJSON
+                    headers.append(["Accept", acc.hex()])
+                    sse = acc == b"text/event-stream"
+                elif sse:
                     headers.append(["Accept", b"text/event-stream".hex()])
                 op["headers"] = headers
                 op["body_hex"] = body.hex()
@@ -596,7 +607,7 @@ def run(prop, tier, seed, replay=None):
         cases = [json.load(open(replay))["case"]]
         for c in cases:
             for o in c["ops"]:
-                for key in ("body", "meta"):
+                for key in ("body", "meta", "accept_raw"):
                     if isinstance(o.get(key), str):
                         o[key] = bytes.fromhex(o[key])
     else:
@@ -632,7 +643,7 @@ def run(prop, tier, seed, replay=None):
         cc = {"name": c["name"], "ops": []}
         for o in c["ops"]:
             o2 = dict(o)
-            for key in ("body", "meta"):
+            for key in ("body", "meta", "accept_raw"):
                 if isinstance(o2.get(key), bytes):
                     o2[key] = o2[key].hex()
             cc["ops"].append(o2)
